@@ -114,7 +114,7 @@ def run_verus(path, logdir=None, rlimit=None, multiple_errors=8, threads=4):
 
 
 VERIFICATION_MSGS = (
-    "postcondition not satisfied", "precondition not satisfied", "invariant not satisfied",
+    "postcondition not satisfied", "precondition not satisfied", "precondition not met", "invariant not satisfied",
     "assertion failed", "possible arithmetic underflow/overflow", "possible division by zero",
     "decreases not satisfied", "loop invariant", "possible bit shift underflow/overflow",
     "recommendation not met", "unreachable", "cannot show", "possible", "might fail",
@@ -206,7 +206,7 @@ def map_failure(d, meta, gen_lines, gen_name):
 
 
 def msg_kind(msg):
-    for k, v in (("postcondition", "post"), ("precondition", "pre"), ("invariant", "inv"),
+    for k, v in (("index in bounds", "index"), ("postcondition", "post"), ("precondition", "pre"), ("invariant", "inv"),
                  ("assertion", "assert"), ("overflow", "overflow"), ("division", "div0"),
                  ("decreases", "decreases"), ("termination", "decreases"), ("bit shift", "shift")):
         if k in msg:
